@@ -78,11 +78,11 @@ pub fn e1_jobs(prop: &str, tier: Tier) -> (Vec<E1Job>, usize) {
     let fam = if q { 64 } else { 400 };
     let jobs = match prop {
         "C01" | "C05" => if q { vec![pa(3), E1Job { profile: Profile::A { times: vec![1, 3, 5] }, depth: 3, alt_map: true }, pbs(4), pc(6), pd(4), pdj(5), pe(1, true, 2), paj(4), pa15(4), ped(3), pill(4), E1Job { profile: Profile::S, depth: 2, alt_map: false }] } else { vec![pa15(4), pb(4), pc(8), pc3(9), paj(5), paj5(4), pd(5), pe(2, true, 2), pe(1, false, 3), pa(4), E1Job { profile: Profile::S, depth: 3, alt_map: false }] },
-        "C02" => if q { vec![pb(3), pbs(4), pbj(4), pd(5), pdj(4), pill(4)] } else { vec![pb(4), pbs(5), pbj(5), pd(6), pdj(5)] },
+        "C02" => if q { vec![pb(3), pbs(4), pbj(4), pd(5), pdj(4), pill(4), ped(4)] } else { vec![pb(4), pbs(5), pbj(5), pd(6), pdj(5)] },
         "C03" => if q { vec![pd(5), pdj(5), pf(4), pe(1, true, 2), pill(4)] } else { vec![pd(6), pdj(6), pf(5), pe(2, true, 2)] },
         "C04" => if q { vec![pa1(3), pbs(3), pc(6), paj(4), pd(4), pe(1, true, 2), pf(4), pill(4), E1Job { profile: Profile::S, depth: 2, alt_map: false }, pc3(8)] } else { vec![pa(3), pbs(4), pc(8), pd(5), pe(2, true, 2), pf(5)] },
         "C07" => if q { vec![pe(1, true, 2), pe(2, true, 1), pe(1, false, 3), ped(4)] } else { vec![pe(2, true, 2), pe(1, true, 3), ped(5)] },
-        "C10" => if q { vec![pa(3), pb(3), pbs(4), pbj(4), pc(6), pd(6), pdj(5), paj(4), pa15(4), pill(4)] } else { vec![pa(3), pa1(4), pb(4), pbs(5), pc(8), pd(7)] },
+        "C10" => if q { vec![pa(3), pb(3), pbs(4), pbj(4), pc(6), pd(6), pdj(5), paj(4), pa15(4), pill(4), E1Job { profile: Profile::S, depth: 2, alt_map: false }] } else { vec![pa(3), pa1(4), pb(4), pbs(5), pc(8), pd(7)] },
         "C12" => if q { vec![pf(4)] } else { vec![pf(6)] },
         "C13" => if q { vec![pf(5), pe(1, true, 2), pe(2, true, 1), paj(3), E1Job { profile: Profile::S, depth: 3, alt_map: false }] } else { vec![pf(5), pe(2, true, 2), E1Job { profile: Profile::S, depth: 3, alt_map: false }] },
         "C04x" => vec![],
@@ -101,7 +101,7 @@ pub fn e1_jobs(prop: &str, tier: Tier) -> (Vec<E1Job>, usize) {
         }
     }
     let fam_n = match prop {
-        "C01" | "C02" | "C04" | "C05" | "C10" | "C12" | "C13" | "C18" | "C20" | "C03" => fam,
+        "C01" | "C02" | "C04" | "C05" | "C07" | "C10" | "C12" | "C13" | "C18" | "C20" | "C03" => fam,
         _ => 0,
     };
     // the thorough tier explores a superset of the quick tier: every quick job that no thorough job of the
@@ -173,7 +173,7 @@ pub fn run_e1(prop: &str, tier: Tier, budget: Duration, frag: &mut Frag) {
         if matches!(job.profile, Profile::Ill) {
             props.continue_after_reject = true;
         }
-        let run = E1Run { resmap: if job.alt_map { vec![4, 1, 5, 3, 0, 2] } else { crate::hsys::Ctx::identity_map() }, c19_maps: if prop == "C19" { if tier == Tier::Quick { 12 } else { 360 } } else { 0 }, profile: &job.profile, depth: job.depth, props, need, deadline: t0 + share, threads: threads() };
+        let run = E1Run { resmap: if job.alt_map { vec![4, 1, 5, 3, 0, 2] } else { crate::hsys::Ctx::identity_map() }, c19_maps: if prop == "C19" { if tier == Tier::Quick { 12 } else { 360 } } else { 0 }, profile: &job.profile, depth: job.depth, props, need, deadline: t0 + share, threads: threads(), user_pool: None };
         let r = run_profile(&run);
         let wall = t0.elapsed().as_secs_f64();
         frag.parts.push(stats_json(&format!("{}{}", job.profile.label(), if job.alt_map { " [resources mapped onto large / colliding-under-truncation dynamic ids]" } else { "" }), job.depth, &r, wall));
@@ -185,6 +185,21 @@ pub fn run_e1(prop: &str, tier: Tier, budget: Duration, frag: &mut Frag) {
             frag.samples.extend(r.samples.into_iter().take(2));
         }
         frag.col.merge(r.col);
+    }
+    if prop == "C03" {
+        // the same barrier profiles with a user-supplied pool of one thread attached before the registrations: what a
+        // barrier orders does not depend on how much can run at once
+        for (profile, depth) in [(Profile::D { access: acc(&[(&[], &[]), (&[0], &[]), (&[], &[0]), (&[], &[1])]) }, 4usize), (Profile::DJ, 4)] {
+            let t0 = Instant::now();
+            let run = E1Run { resmap: crate::hsys::Ctx::identity_map(), c19_maps: 0, profile: &profile, depth, props, need, deadline: t0 + Duration::from_secs(20), threads: threads(), user_pool: Some(1) };
+            let r = run_profile(&run);
+            frag.parts.push(stats_json(&format!("{} [a user-supplied pool of 1 thread attached first]", profile.label()), depth, &r, t0.elapsed().as_secs_f64()));
+            frag.states += r.stats.states;
+            frag.transitions += r.stats.transitions;
+            frag.traces_validated += r.stats.states;
+            frag.exhaustive &= !r.stats.capped;
+            frag.col.merge(r.col);
+        }
     }
     if prop == "C19" {
         // relabelling sweep first: it is cheap and must not be starved by the profile jobs
@@ -234,21 +249,30 @@ pub fn run_e1(prop: &str, tier: Tier, budget: Duration, frag: &mut Frag) {
 pub fn confirm(f: &crate::report::Finding) -> Option<bool> {
     let kind = f.replay.get("kind").and_then(|k| k.as_str())?;
     match kind {
-        "plan" => {
+        "plan" | "plan-wide" => {
             let ops = crate::spec::plan_from_json(f.replay.get("ops")?)?;
             let info = PlanInfo::of(&ops);
             let mut need = need_for(&f.prop);
             need.debug = true;
-            let o = crate::obs::observe(&ops, &crate::hsys::Ctx::identity_map(), need);
+            let resmap: Vec<u8> = f.replay.get("resmap").and_then(|m| m.as_array()).map(|a| a.iter().filter_map(|x| x.as_u64().map(|y| y as u8)).collect()).unwrap_or_else(crate::hsys::Ctx::identity_map);
+            if f.prop == "C19" || f.sig == "redundant-barrier-changes-plan" {
+                return None;
+            }
             let mut p = Props::from_list(&[f.prop.as_str()]);
             p.c10_all = true;
             // the finding may stem from a sequence that goes on after a (rightly) rejected call
             p.continue_after_reject = true;
-            let vs = crate::inv::check_state(&p, &ops, &info, &o, false);
-            if f.prop == "C19" || f.sig == "redundant-barrier-changes-plan" {
-                return None;
+            // ... or from a run in which a user-supplied pool was attached before the registrations
+            for pool in [None, Some(1usize), Some(2)] {
+                crate::obs::set_e1_user_pool(pool);
+                let o = crate::obs::observe(&ops, &resmap, need);
+                crate::obs::set_e1_user_pool(None);
+                let vs = crate::inv::check_state(&p, &ops, &info, &o, false);
+                if vs.iter().any(|v| v.prop == f.prop && v.sig == f.sig) {
+                    return Some(true);
+                }
             }
-            Some(vs.iter().any(|v| v.prop == f.prop && v.sig == f.sig))
+            Some(false)
         }
         "schedule" => {
             let sc = Scenario::from_json(f.replay.get("scenario")?)?;
@@ -481,6 +505,21 @@ pub fn e2_jobs(prop: &str, tier: Tier) -> Vec<E2Job> {
             }
         }
         jobs.push(E2Job { label: "a system panics in the first of three dispatches (caught): the later dispatches run every system once".into(), scenarios: scs, bounds: b(if q { 0 } else { 1 }), delay: false });
+        // async dispatcher x thread-local systems: whatever is called between dispatch and wait, the dispatch runs
+        // its thread-local systems once (inside that wait)
+        let mut scs = Vec::new();
+        for p in tl(2) {
+            let info = PlanInfo::of(&p);
+            if !info.nodes.iter().any(|n| n.kind == crate::spec::Kind::Tl && n.parent.is_none()) {
+                continue;
+            }
+            for script in ["DW", "DRW", "DXW", "DOW", "DMW", "DWDW", "DDW"] {
+                let mut sc = Scenario::plain(p.clone(), Mode::Async, 0);
+                sc.script = Some(script.to_string());
+                scs.push(sc);
+            }
+        }
+        jobs.push(E2Job { label: "async scripts over thread-local plans: polling / accessors between dispatch and wait".into(), scenarios: scs, bounds: b(if q { 0 } else { 1 }), delay: false });
         // pool-size sweep: stages wider than / equal to / narrower than the pool
         let mut scs = Vec::new();
         for w in [2usize, 3, 5, 7] {
